@@ -275,7 +275,20 @@ type cmap4Iter struct {
 }
 
 func (it *cmap4Iter) Next() bool {
-	return it.pos1 < len(it.data)
+	// skip the entries of the glyph index arrays with value 0 : [Lookup] ignores them
+	for it.pos1 < len(it.data) {
+		entry := it.data[it.pos1]
+		if entry.indexes == nil || entry.indexes[it.pos2] != 0 {
+			return true
+		}
+		if it.pos2 == len(entry.indexes)-1 {
+			it.pos2 = 0
+			it.pos1++
+		} else {
+			it.pos2++
+		}
+	}
+	return false
 }
 
 func (it *cmap4Iter) Char() (r rune, gy GID) {
@@ -294,7 +307,7 @@ func (it *cmap4Iter) Char() (r rune, gy GID) {
 		r = rune(it.pos2) + rune(entry.start)
 		gy = GID(entry.indexes[it.pos2])
 		if gy != 0 {
-			gy += GID(entry.delta)
+			gy = GID(uint16(gy) + entry.delta) // modulo 65536, as [Lookup] does
 		}
 		if it.pos2 == len(entry.indexes)-1 {
 			// we have read the last glyph in this part
